@@ -92,7 +92,8 @@ VALID = {
     'lifetime': [3600], 'dpd': [120],
     'encr': [['aes128'], ['aes128', 'aes256']], 'integ': [['sha1'], ['sha1', 'sha512', 'sha256']],
     'prf': [['sha1'], ['sha1', 'sha512', 'sha256']], 'dh': [[14], ['14'], ['modp2048'], ['ecp521', 20, 'modp3072']],
-    'id': ['bob@example.org', 'host.example.org', '10.1.2.3', '2001:db8::5'], 'psk': ['other'],
+    'id': ['bob@example.org', 'host.example.org', '10.1.2.3', '2001:db8::5', '::ffff:192.0.2.1', '64:ff9b::192.0.2.33', '::1',
+           'fe80::1'], 'psk': ['other'],
     'my_port': [23, 65535], 'peer_port': [23, 65535], 'ip_proto': ['tcp', 'udp', 'icmp', 'any'],
     'mode': ['transport', 'tunnel'], 'ipsec_proto': ['esp', 'ah'], 'index': [5, 77],
 }
@@ -725,6 +726,30 @@ def local_address_kinds_cases():
         w.deliver_all()
         if not all(any(s.state == State.ESTABLISHED for s in e.controller.ike_sas) for e in w.endpoints.values()):
             out.append(('listen-address:%s:handshake-fails' % lab, 'between %s and %s the initial exchanges do not complete' % (a_addr, b_addr), doc))
+    # the peer tries the daemon's OTHER address first (no connection there: ignored, however often), then the configured one
+    n += 1
+    B2 = '192.168.0.12'
+    c = S.base_confs()
+    w = S.new_world(c, {'A': [S.IP_A], 'B': [S.IP_B, B2]})
+    w.sent_log = []
+    w.step(('acquire', 'A', 0, 0))
+    req = w.net[0]
+    w.step(('drop', req.id))
+    doc = dict(local_kind='other-local-address-first')
+    for k in range(5):
+        w.step(('inject', 'B', bytes([k + 1]) * 8 + req.data[8:], S.IP_A, B2))
+    b = w.endpoints['B']
+    if not b.alive:
+        out.append(('listen-address:other-local-address-first:daemon-died', 'requests on an address without connection ended the daemon: %r' % (b.dead_reason[:2],), doc))
+    elif w.net or b.controller.ike_sas:
+        out.append(('listen-address:other-local-address-first:served', 'IKE_SA_INIT requests that arrived on %s (no connection with %s there) were '
+                    'answered / created %d IKE_SAs' % (B2, S.IP_A, len(b.controller.ike_sas)), doc))
+    else:
+        w.step(('tick', 2.1))        # A retransmits its request, this time it is let through to the configured address
+        w.deliver_all()
+        if not all(any(s.state == State.ESTABLISHED for s in e.controller.ike_sas) for e in w.endpoints.values()):
+            out.append(('listen-address:other-local-address-first:configured-pair-not-served', 'after five IKE_SA_INIT requests from %s to %s (no '
+                        'connection) the handshake between %s and %s (configured) does not complete' % (S.IP_A, B2, S.IP_A, S.IP_B), doc))
     return n, out
 
 
